@@ -466,6 +466,8 @@ class Parser:
         # A minus starts a negative number, as in "print -5" or "cycle -90".
         if token.is_mark('{', '[', '-'):
             return True
+        if token.is_a(TokenTypes.NOT):
+            return True
         if token.token_type in (
                 TokenTypes.LITERAL_STRING,
                 TokenTypes.NUMBER):
